@@ -139,23 +139,23 @@ theorem readLabel_labelString (i : Ident) (hi : identOK i) : readLabel (labelStr
 /-! ### operands -/
 
 theorem const_head37 (useHex : Int → Bool) (t : Ty) (c : Const) :
-    ∃ h rest, constIdent useHex t c = h :: rest ∧ h ≠ 37 ∧ h ≠ 97 ∧ h ≠ 40 := by
+    ∃ h rest, constIdent useHex t c = h :: rest ∧ h ≠ 37 ∧ h ≠ 97 ∧ h ≠ 40 ∧ h ≠ 64 := by
   cases c with
   | int x =>
     obtain ⟨h, rest, heq, hh⟩ := lit_head _ (intLit_shape useHex (intWidth t) x)
-    refine ⟨h, rest, by simp [constIdent, heq], ?_, ?_, ?_⟩ <;> (intro e; subst e; simp [litHead, isDigit] at hh)
-  | zero => exact ⟨_, _, rfl, by decide, by decide, by decide⟩
-  | null => exact ⟨_, _, rfl, by decide, by decide, by decide⟩
-  | undef => exact ⟨_, _, rfl, by decide, by decide, by decide⟩
+    refine ⟨h, rest, by simp [constIdent, heq], ?_, ?_, ?_, ?_⟩ <;> (intro e; subst e; simp [litHead, isDigit] at hh)
+  | zero => exact ⟨_, _, rfl, by decide, by decide, by decide, by decide⟩
+  | null => exact ⟨_, _, rfl, by decide, by decide, by decide, by decide⟩
+  | undef => exact ⟨_, _, rfl, by decide, by decide, by decide, by decide⟩
   | struct p fs =>
     cases fs with
-    | nil => cases p <;> exact ⟨_, _, rfl, by decide, by decide, by decide⟩
+    | nil => cases p <;> exact ⟨_, _, rfl, by decide, by decide, by decide, by decide⟩
     | cons t1 c1 rest =>
       cases p
-      · exact ⟨123, 32 :: (clistString useHex (.cons t1 c1 rest) ++ [32, 125]), by simp [constIdent], by decide, by decide, by decide⟩
-      · exact ⟨60, 123 :: 32 :: (clistString useHex (.cons t1 c1 rest) ++ [32, 125, 62]), by simp [constIdent], by decide, by decide, by decide⟩
-  | arr es => exact ⟨91, clistString useHex es ++ [93], by simp [constIdent], by decide, by decide, by decide⟩
-  | vec es => exact ⟨60, clistString useHex es ++ [62], by simp [constIdent], by decide, by decide, by decide⟩
+      · exact ⟨123, 32 :: (clistString useHex (.cons t1 c1 rest) ++ [32, 125]), by simp [constIdent], by decide, by decide, by decide, by decide⟩
+      · exact ⟨60, 123 :: 32 :: (clistString useHex (.cons t1 c1 rest) ++ [32, 125, 62]), by simp [constIdent], by decide, by decide, by decide, by decide⟩
+  | arr es => exact ⟨91, clistString useHex es ++ [93], by simp [constIdent], by decide, by decide, by decide, by decide⟩
+  | vec es => exact ⟨60, clistString useHex es ++ [62], by simp [constIdent], by decide, by decide, by decide, by decide⟩
 
 /-- what may follow a label reference: nothing, or the comma of the next literal -/
 def endOK (r : Bytes) : Bool :=
@@ -171,12 +171,14 @@ def opEnd (r : Bytes) : Bool :=
   | 32 :: 116 :: _ => true
   | _ => false
 
-/-- what may follow a stand-alone type: nothing, a comma, or ` [` (the incoming list of a phi) -/
+/-- what may follow a stand-alone type: nothing, a comma, ` [` (the incoming list of a phi), or ` %` / ` @` (the callee of a call) -/
 def tyEnd (r : Bytes) : Bool :=
   match r with
   | [] => true
   | 44 :: _ => true
   | 32 :: 91 :: _ => true
+  | 32 :: 37 :: _ => true
+  | 32 :: 64 :: _ => true
   | _ => false
 
 theorem endOK_identEnd (r : Bytes) (h : endOK r = true) : identEnd r = true := by
@@ -203,6 +205,11 @@ theorem opEnd_stopC (r : Bytes) (h : opEnd r = true) : stopC r = true := by
 def operandOK : Operand → Prop
   | .loc i => identOK i
   | .const c => cwf c = true
+  | .glob n => n ≠ []
+
+theorem readGlobal_globalName (n r : Bytes) (hne : n ≠ []) (hr : identEnd r = true) :
+    readGlobal (Enc.globalName n ++ r) = some (n, r) := by
+  simp only [globalName_eq, List.cons_append, readGlobal, takeBody_nameBody n r hne hr, decode_nameBody n hne]
 
 theorem identString_head (i : Ident) (hi : identOK i) : ∃ rest, identString i = 37 :: rest := by
   cases i with
@@ -218,13 +225,20 @@ theorem readOperand_operandString (useHex : Int → Bool) (t : Ty) (o : Operand)
     have hd : (identString i ++ r).head? = some 37 := by rw [hh]; rfl
     simp only [operandString, readOperand, hd, beq_self_eq_true, if_true, readIdent_identString i r ho (opEnd_identEnd r hr)]
   | const c =>
-    obtain ⟨h, rest, heq, h37, _, _⟩ := const_head37 useHex t c
+    obtain ⟨h, rest, heq, h37, _, _, h64⟩ := const_head37 useHex t c
     have hd : ((constIdent useHex t c ++ r).head? == some 37) = false := by
       rw [heq]; simp [h37]
     have hf : csize c ≤ (constIdent useHex t c ++ r).length + 1 := by
       have := csize_le_len useHex t c; simp only [List.length_append]; omega
-    simp only [operandString, readOperand, hd, Bool.false_eq_true, if_false,
+    have hd2 : ((constIdent useHex t c ++ r).head? == some 64) = false := by
+      rw [heq]; simp [h64]
+    simp only [operandString, readOperand, hd, hd2, Bool.false_eq_true, if_false,
       read_const useHex c _ t r (opEnd_stopC r hr) hf ho]
+  | glob n =>
+    have hd : ((Enc.globalName n ++ r).head? == some 37) = false := by rw [globalName_eq]; rfl
+    have hd2 : ((Enc.globalName n ++ r).head? == some 64) = true := by rw [globalName_eq]; rfl
+    simp only [operandString, readOperand, hd, hd2, Bool.false_eq_true, if_false, if_true,
+      readGlobal_globalName n r ho (opEnd_identEnd r hr)]
 
 /-- a type followed by ` ` and an operand -/
 theorem tyval_step (useHex : Int → Bool) (t : Ty) (o : Operand) (tail : Bytes) (ho : operandOK o) :
@@ -236,8 +250,9 @@ theorem tyval_step (useHex : Int → Bool) (t : Ty) (o : Operand) (tail : Bytes)
       obtain ⟨rest, hh⟩ := identString_head i ho
       exact ⟨37, rest ++ tail, by simp [operandString, hh], by decide, by decide⟩
     | const c =>
-      obtain ⟨h, rest, heq, _, h97, h40⟩ := const_head37 useHex t c
+      obtain ⟨h, rest, heq, _, h97, h40, _⟩ := const_head37 useHex t c
       exact ⟨h, rest ++ tail, by simp [operandString, heq], h97, h40⟩
+    | glob n => exact ⟨64, nameBody n ++ tail, by simp [operandString, globalName_eq], by decide, by decide⟩
   obtain ⟨h, rest, heq, h97, h40⟩ := hh
   apply TyParse.parseTy_tyString_gen
   · simp [TyParse.cont]
@@ -254,10 +269,14 @@ theorem ty_step (t : Ty) (tail : Bytes) (hr : tyEnd tail = true) :
     · rfl
     · simp [TyParse.cont]
     · simp [TyParse.cont]
+    · simp [TyParse.cont]
+    · simp [TyParse.cont]
     · cases hr
   · unfold tyEnd at hr
     split at hr
     · rfl
+    · simp [TyParse.stopG]
+    · simp [TyParse.stopG]
     · simp [TyParse.stopG]
     · simp [TyParse.stopG]
     · cases hr
@@ -327,6 +346,11 @@ def argOK : Arg → Prop
   | .align a => ∀ n ∈ a, n < 2 ^ 63
   | .tyvals ixs => ∀ p ∈ ixs, operandOK p.2
 
+/-- a local or a global (not a constant) -/
+def isRef : Operand → Bool
+  | .const _ => false
+  | _ => true
+
 /-- the arguments fill the non-literal slots, in order -/
 inductive Matches : List Slot → List Arg → Prop
   | nil : Matches [] []
@@ -340,6 +364,8 @@ inductive Matches : List Slot → List Arg → Prop
   | nums (ks : List Nat) {fs : List Slot} {as : List Arg} : Matches fs as → Matches (.nums :: fs) (.nums ks :: as)
   | align (a : Option Nat) {fs : List Slot} {as : List Arg} : Matches fs as → Matches (.align :: fs) (.align a :: as)
   | tyvals (ixs : List (Ty × Operand)) {fs : List Slot} {as : List Arg} : Matches fs as → Matches (.tyvals :: fs) (.tyvals ixs :: as)
+  | callee (o : Operand) (h : isRef o = true) {fs : List Slot} {as : List Arg} : Matches fs as → Matches (.callee :: fs) (.val o :: as)
+  | cargs (ixs : List (Ty × Operand)) {fs : List Slot} {as : List Arg} : Matches fs as → Matches (.cargs :: fs) (.tyvals ixs :: as)
 
 theorem matches_nil (as : List Arg) (h : Matches [] as) : as = [] := by cases h; rfl
 
@@ -361,6 +387,7 @@ def tyFollow : List Slot → Bool
   | [] => true
   | .lit (44 :: _) :: _ => true
   | .lit [32] :: .phis :: _ => true
+  | .lit [32] :: .callee :: _ => true
   | [.align] => true
   | _ => false
 
@@ -377,6 +404,8 @@ def fmtOK : List Slot → Bool
   | .nums :: fs => fs.isEmpty
   | .align :: fs => fs.isEmpty
   | .tyvals :: fs => fs.isEmpty
+  | .callee :: fs => (match fs with | [.cargs] => true | _ => false)
+  | .cargs :: fs => fs.isEmpty
 
 theorem endOK_print (useHex : Int → Bool) (cur : Ty) (fs : List Slot) (as : List Arg)
     (hs : startsComma fs = true) : endOK (printSlots useHex cur fs as) = true := by
@@ -439,6 +468,18 @@ theorem tyEnd_print (useHex : Int → Bool) (cur : Ty) (fs : List Slot) (as : Li
           cases hps : phisString useHex cur (p :: ps) with
           | nil => rw [hps] at hh; simp at hh
           | cons c r => rw [hps] at hh; simp at hh; subst hh; simp [printSlots, hps, tyEnd]
+  · rename_i rest
+    cases hm with
+    | lit s hm' =>
+      cases hm' with
+      | callee o hr hm'' =>
+        have ho : operandOK o := ha (.val o) (by simp)
+        cases o with
+        | const c => simp [isRef] at hr
+        | loc i =>
+          obtain ⟨r, hh⟩ := identString_head i ho
+          simp [printSlots, operandString, hh, tyEnd]
+        | glob n => simp [printSlots, operandString, globalName_eq, tyEnd]
   · cases hm with
     | align a hm' =>
       have := matches_nil _ hm'; subst this
@@ -505,6 +546,49 @@ theorem readAlign_print (a : Option Nat) (h : ∀ n ∈ a, n < 2 ^ 63) : readAli
       simp [sAlign, TyParse.stripPrefix]
     rw [hs]
     simp only [readAlign, hsp, parseUint63_natDec n hn]
+
+theorem readCallee_print (useHex : Int → Bool) (o : Operand) (r : Bytes) (hr : isRef o = true) (ho : operandOK o) (he : identEnd r = true) :
+    readCallee (operandString useHex calleeTy o ++ r) = some (o, r) := by
+  cases o with
+  | const c => simp [isRef] at hr
+  | loc i =>
+    obtain ⟨rest, hh⟩ := identString_head i ho
+    have hd : (identString i ++ r).head? = some 37 := by rw [hh]; rfl
+    simp only [operandString, readCallee, hd, beq_self_eq_true, if_true, readIdent_identString i r ho he]
+  | glob n =>
+    have hd : ((Enc.globalName n ++ r).head? == some 37) = false := by rw [globalName_eq]; rfl
+    have hd2 : ((Enc.globalName n ++ r).head? == some 64) = true := by rw [globalName_eq]; rfl
+    simp only [operandString, readCallee, hd, hd2, Bool.false_eq_true, if_false, if_true, readGlobal_globalName n r ho he]
+
+theorem readCargs_print (useHex : Int → Bool) (ixs : List (Ty × Operand)) (hk : ∀ p ∈ ixs, operandOK p.2) :
+    readCargs (cargsString useHex ixs) = some ixs := by
+  cases ixs with
+  | nil => simp [cargsString, tyvalsString, readCargs]
+  | cons p rest =>
+    obtain ⟨t, o⟩ := p
+    have hs : tyvalsString useHex ((t, o) :: rest) = sComma ++ (tyString t ++ 32 :: (operandString useHex t o ++ tyvalsString useHex rest)) := by
+      simp [tyvalsString]
+    obtain ⟨c, cs, hc⟩ : ∃ c cs, tyString t ++ 32 :: (operandString useHex t o ++ tyvalsString useHex rest) = c :: cs := by
+      cases h : tyString t ++ 32 :: (operandString useHex t o ++ tyvalsString useHex rest) with
+      | nil => simp at h
+      | cons c cs => exact ⟨c, cs, rfl⟩
+    have hlen := tyvalsString_len useHex ((t, o) :: rest)
+    have hx : cargsString useHex ((t, o) :: rest) = 40 :: ((c :: cs) ++ [41]) := by
+      simp only [cargsString, hs, hc, sComma]; rfl
+    have hne : ((c :: cs) ++ [41] == [41]) = false := by
+      cases cs <;> simp
+    have hl : ((c :: cs) ++ [41]).getLast? = some 41 := by
+      rw [List.getLast?_append]; simp
+    have hd : ((c :: cs) ++ [41]).dropLast = c :: cs := List.dropLast_concat
+    have hfuel : ((t, o) :: rest).length + 1 ≤ ((c :: cs) ++ [41]).length + 2 := by
+      rw [hs, hc] at hlen
+      simp only [List.length_append, List.length_cons, sComma, List.length_nil] at hlen ⊢
+      omega
+    have hrt := readTyvals_print useHex ((t, o) :: rest) _ hk hfuel
+    rw [hs, hc] at hrt
+    rw [hx]
+    simp only [readCargs, hne, Bool.false_eq_true, if_false, hl, beq_self_eq_true, if_true, hd]
+    exact hrt
 
 theorem read_print_slots (useHex : Int → Bool) (fs : List Slot) (as : List Arg) (hm : Matches fs as) :
     ∀ (cur : Ty), fmtOK fs = true → (∀ a ∈ as, argOK a) →
@@ -601,6 +685,33 @@ theorem read_print_slots (useHex : Int → Bool) (fs : List Slot) (as : List Arg
     have hk : ∀ n ∈ a, n < 2 ^ 63 := ha (.align a) (by simp)
     simp only [printSlots, readSlots, List.append_nil]
     rw [readAlign_print a hk]
+  | @callee o hr fs' as' hm ih =>
+    intro cur hf ha
+    have ho : operandOK o := ha (.val o) (by simp)
+    have ha' : ∀ a ∈ as', argOK a := fun a h => ha a (by simp [h])
+    have hfs : fs' = [.cargs] := by
+      simp only [fmtOK] at hf
+      split at hf
+      · rfl
+      · cases hf
+    subst hfs
+    cases hm with
+    | cargs ixs hm' =>
+      have := matches_nil _ hm'; subst this
+      have hk : ∀ p ∈ ixs, operandOK p.2 := ha (.tyvals ixs) (by simp)
+      have hend : identEnd (cargsString useHex ixs) = true := by
+        simp [cargsString, identEnd, inTail, inHead, isAlpha, isUpper, isLower, isDigit]
+      simp only [printSlots, readSlots, List.append_nil]
+      rw [readCallee_print useHex o _ hr ho hend]
+      simp only [readCargs_print useHex ixs hk]
+  | @cargs ixs fs' as' hm ih =>
+    intro cur hf ha
+    simp only [fmtOK, List.isEmpty_iff] at hf
+    subst hf
+    have := matches_nil as' hm; subst this
+    have hk : ∀ p ∈ ixs, operandOK p.2 := ha (.tyvals ixs) (by simp)
+    simp only [printSlots, readSlots, List.append_nil]
+    rw [readCargs_print useHex ixs hk]
 
 /-! ### the row table -/
 
@@ -622,38 +733,125 @@ theorem stripPrefix_diverge : ∀ (p q rest : Bytes), diverge p q = true → TyP
       exact stripPrefix_diverge p q rest (by rcases h with h | h; exact absurd rfl h; exact h)
     · simp [hab]
 
+theorem stripPrefix_both : ∀ (p a b : Bytes), TyParse.stripPrefix (p ++ a) (p ++ b) = TyParse.stripPrefix a b
+  | [], a, b => rfl
+  | c :: p, a, b => by simp [TyParse.stripPrefix, stripPrefix_both p a b]
+
+theorem stripPrefix_extend : ∀ (p A X : Bytes), TyParse.stripPrefix p A = none → (TyParse.stripPrefix p (A ++ X)).isSome = true →
+    ∃ q, q ≠ [] ∧ p = A ++ q
+  | [], A, X, h, _ => by simp [TyParse.stripPrefix] at h
+  | c :: p, [], X, _, _ => ⟨c :: p, by simp, rfl⟩
+  | c :: p, a :: A, X, h, h2 => by
+    simp only [TyParse.stripPrefix, List.cons_append] at h h2
+    by_cases hca : (c == a) = true
+    · simp only [hca, if_true] at h h2
+      obtain ⟨q, hq, hp⟩ := stripPrefix_extend p A X h h2
+      have : c = a := by simpa using hca
+      exact ⟨q, hq, by rw [hp, this]; rfl⟩
+    · simp [hca] at h2
+
+/-- a text that ends with a space and does not start with `void ` does not start with it whatever follows -/
+theorem startsVoid_append (A X : Bytes) (hl : A.getLast? = some 32) (h : startsVoid A = false) : startsVoid (A ++ X) = false := by
+  unfold startsVoid at *
+  cases hs : TyParse.stripPrefix sVoidSp (A ++ X) with
+  | none => rfl
+  | some r =>
+    have hn : TyParse.stripPrefix sVoidSp A = none := by
+      cases h' : TyParse.stripPrefix sVoidSp A with
+      | none => rfl
+      | some x => rw [h'] at h; simp at h
+    obtain ⟨q, hq, hp⟩ := stripPrefix_extend sVoidSp A X hn (by rw [hs]; rfl)
+    exfalso
+    unfold sVoidSp at hp
+    rcases A with _ | ⟨a, _ | ⟨b, _ | ⟨c, _ | ⟨d, _ | ⟨e, A⟩⟩⟩⟩⟩
+    · simp at hl
+    · simp at hl hp; simp_all
+    · simp at hl hp; simp_all
+    · simp at hl hp; simp_all
+    · simp at hl hp; simp_all
+    · simp at hp; exact hq hp.2.2.2.2.2.2
+
+/-- an earlier row's keyword diverges from a later one's, or is the later one's followed by `void ` (`call void ` before `call `) -/
+def divergeOrVoid (q r : Row) : Bool := diverge q.pre r.pre || (q.pre == r.pre ++ sVoidSp)
+
 def allDiverge : List Row → Bool
   | [] => true
-  | r :: rs => rs.all (fun q => diverge r.pre q.pre) && allDiverge rs
+  | r :: rs => rs.all (fun q => divergeOrVoid r q) && allDiverge rs
 
 theorem findRow_spec : ∀ (rs : List Row) (k0 i : Nat) (r : Row) (rest : Bytes),
-    allDiverge rs = true → rs[i]? = some r → findRow k0 rs (r.pre ++ rest) = some (k0 + i, r, rest)
-  | [], _, _, _, _, _, h => by simp at h
-  | q :: rs, k0, 0, r, rest, _, h => by
+    allDiverge rs = true → rs[i]? = some r → (∀ q ∈ rs, q.pre = r.pre ++ sVoidSp → startsVoid rest = false) →
+    findRow k0 rs (r.pre ++ rest) = some (k0 + i, r, rest)
+  | [], _, _, _, _, _, h, _ => by simp at h
+  | q :: rs, k0, 0, r, rest, _, h, _ => by
     simp at h; subst h
     simp [findRow, TyParse.stripPrefix_append]
-  | q :: rs, k0, i + 1, r, rest, hd, h => by
+  | q :: rs, k0, i + 1, r, rest, hd, h, hv => by
     simp only [allDiverge, Bool.and_eq_true, List.all_eq_true] at hd
     have hr : rs[i]? = some r := by simpa using h
     have hmem : r ∈ rs := List.mem_of_getElem? hr
-    have := stripPrefix_diverge q.pre r.pre rest (hd.1 r hmem)
+    have : TyParse.stripPrefix q.pre (r.pre ++ rest) = none := by
+      have hq := hd.1 r hmem
+      simp only [divergeOrVoid, Bool.or_eq_true, beq_iff_eq] at hq
+      rcases hq with hq | hq
+      · exact stripPrefix_diverge q.pre r.pre rest hq
+      · rw [hq, stripPrefix_both]
+        have := hv q (by simp) hq
+        unfold startsVoid at this
+        cases h' : TyParse.stripPrefix sVoidSp rest with
+        | none => rfl
+        | some x => rw [h'] at this; simp at this
     simp only [findRow, this]
-    rw [findRow_spec rs (k0 + 1) i r rest hd.2 hr]
+    rw [findRow_spec rs (k0 + 1) i r rest hd.2 hr (fun q' hq' => hv q' (by simp [hq']))]
     simp; omega
 
 theorem rows_diverge : allDiverge rows = true := by decide +kernel
+/-- only the value call (row 75) has a keyword that another row extends with `void ` -/
+theorem rows_void : (List.range rows.length).all (fun k => match rows[k]? with
+    | some r => rows.all (fun q => !(q.pre == r.pre ++ sVoidSp)) || k == 75
+    | none => true) = true := by decide +kernel
 theorem rows_fmt : rows.all (fun r => fmtOK r.slots) = true := by decide +kernel
 /-- no row starts with `%` (an instruction line that starts with `%` carries a result) and none is empty -/
 theorem rows_head : rows.all (fun r => match r.pre with | [] => false | c :: _ => c != 37) = true := by decide +kernel
 
 def instOK (i : Inst) : Prop :=
-  ∃ r, rows[i.row]? = some r ∧ Matches r.slots i.args ∧ (∀ a ∈ i.args, argOK a) ∧ r.hasRes = i.res.isSome ∧ (∀ id ∈ i.res, identOK id)
+  ∃ r, rows[i.row]? = some r ∧ Matches r.slots i.args ∧ (∀ a ∈ i.args, argOK a) ∧ r.hasRes = i.res.isSome ∧ (∀ id ∈ i.res, identOK id) ∧
+    callTyOK i = true
+
+theorem call_void_ok (useHex : Int → Bool) (i : Inst) (r : Row) (hr : rows[i.row]? = some r) (hm : Matches r.slots i.args)
+    (hc : callTyOK i = true) : ∀ q ∈ rows, q.pre = r.pre ++ sVoidSp → startsVoid (printSlots useHex r.cur0 r.slots i.args) = false := by
+  obtain ⟨ires, irow, iargs⟩ := i
+  simp only at hr hm hc ⊢
+  intro q hq he
+  have hk : irow < rows.length := by
+    cases h : rows[irow]? with
+    | none => rw [h] at hr; cases hr
+    | some x => exact (List.getElem?_eq_some_iff.mp h).1
+  have := List.all_eq_true.mp rows_void irow (by simpa using hk)
+  simp only [hr, Bool.or_eq_true, List.all_eq_true, Bool.not_eq_true', beq_iff_eq] at this
+  rcases this with h | h
+  · have := h q hq; simp [he] at this
+  · have h75 : rows[75]? = some ⟨true, [99, 97, 108, 108, 32], .void, [.ty, .lit [32], .callee, .cargs], .loadTy, false⟩ := rfl
+    rw [h, h75] at hr
+    injection hr with hr
+    subst hr
+    cases hm with
+    | ty t hm1 => cases hm1 with
+      | lit _ hm2 => cases hm2 with
+        | callee o ho hm3 => cases hm3 with
+          | cargs ixs hm4 =>
+            have := matches_nil _ hm4; subst this
+            simp only [callTyOK, h, bne_self_eq_false, Bool.false_or, Bool.not_eq_true'] at hc
+            simp only [printSlots, List.append_nil]
+            have e : tyString t ++ ([32] ++ (operandString useHex calleeTy o ++ cargsString useHex ixs))
+                = (tyString t ++ [32]) ++ (operandString useHex calleeTy o ++ cargsString useHex ixs) := by simp
+            rw [e]
+            exact startsVoid_append _ _ (by simp) hc
 
 theorem readBody_print (useHex : Int → Bool) (i : Inst) (r : Row) (hr : rows[i.row]? = some r) (hm : Matches r.slots i.args)
-    (ha : ∀ a ∈ i.args, argOK a) (hres : r.hasRes = i.res.isSome) :
+    (ha : ∀ a ∈ i.args, argOK a) (hres : r.hasRes = i.res.isSome) (hc : callTyOK i = true) :
     readBody i.res (r.pre ++ printSlots useHex r.cur0 r.slots i.args) = some i := by
   unfold readBody
-  have hf := findRow_spec rows 0 i.row r (printSlots useHex r.cur0 r.slots i.args) rows_diverge hr
+  have hf := findRow_spec rows 0 i.row r (printSlots useHex r.cur0 r.slots i.args) rows_diverge hr (call_void_ok useHex i r hr hm hc)
   simp only [Nat.zero_add] at hf
   rw [hf]
   have hfmt : fmtOK r.slots = true := by
@@ -665,12 +863,12 @@ theorem readBody_print (useHex : Int → Bool) (i : Inst) (r : Row) (hr : rows[i
   cases ires <;> simp_all
 
 theorem readInst_print (useHex : Int → Bool) (i : Inst) (hi : instOK i) : readInst (instString useHex i) = some i := by
-  obtain ⟨r, hr, hm, ha, hres, hid⟩ := hi
+  obtain ⟨r, hr, hm, ha, hres, hid, hcall⟩ := hi
   unfold instString
   rw [hr]
   cases hres' : i.res with
   | none =>
-    have hb := readBody_print useHex i r hr hm ha hres
+    have hb := readBody_print useHex i r hr hm ha hres hcall
     rw [hres'] at hb
     have hh : r.pre ≠ [] ∧ r.pre.head? ≠ some 37 := by
       have := List.all_eq_true.mp rows_head r (List.mem_of_getElem? hr)
@@ -688,7 +886,7 @@ theorem readInst_print (useHex : Int → Bool) (i : Inst) (hi : instOK i) : read
     rw [hd]
     simpa using hb
   | some id =>
-    have hb := readBody_print useHex i r hr hm ha hres
+    have hb := readBody_print useHex i r hr hm ha hres hcall
     rw [hres'] at hb
     have hidok : identOK id := hid id (by simp [hres'])
     obtain ⟨rest, hh⟩ := identString_head id hidok
